@@ -621,3 +621,606 @@ def oracle_C11(cmds, impl, model, stats: Stats):
 
 
 ORACLES.update({"C02": oracle_C02, "C08": oracle_C08, "C11": oracle_C11})
+
+
+# ------------------------------------------------------------------------------ multi-engine helpers
+def engine_kinds(ctx: Ctx) -> dict[str, str]:
+    """'e0' -> 'sql' | 'iter' (index names as printed in trees)."""
+    out = {}
+    i = 0
+    for c in ctx.cmds:
+        if c[0] == "engine":
+            out[f"e{i}"] = c[2]
+            i += 1
+    return out
+
+
+def leaf_cols(ctx: Ctx) -> dict[str, set[str]]:
+    out = {}
+    for c in ctx.cmds:
+        if c[0] == "leaf":
+            out[c[7]] = set(c[3])
+        elif c[0] == "doomed":
+            out[c[4]] = set(c[3])
+        elif c[0] == "joinid":
+            out[c[3]] = set()
+    return out
+
+
+def node_engine(t) -> str:
+    h = t[0]
+    if h == "leaf":
+        return t[2]
+    if h == "u":
+        return node_engine(t[3])
+    if h == "b":
+        return node_engine(t[3])
+    if h == "mat":
+        return node_engine(t[3])
+    if h == "xfer":
+        return t[2]
+    if h.startswith("select"):
+        return node_engine(t[-1])
+    return "?"
+
+
+def node_cols(t, lcols) -> set[str]:
+    h = t[0]
+    if h == "leaf":
+        return set(lcols.get(t[1], set()))
+    if h in ("u", "b"):
+        return set(filter(None, t[2].strip("[]").split(",")))
+    if h in ("mat", "xfer"):
+        return node_cols(t[3], lcols)
+    if h.startswith("select"):
+        return node_cols(t[-1], lcols)
+    return set()
+
+
+def strip_marks(text: str) -> str:
+    """Remove payload marks and serial numbers (structure only)."""
+    return re.sub(r"\(select\+", "(select", re.sub(r"#\d+\+?", "#", text))
+
+
+def exec_rows_after(ctx: Ctx, k: int, name: str):
+    """Rows obtained by executing relation `name` right after command k: (rows text, ordered?, det, error)."""
+    for j in range(k + 1, min(k + 3, len(ctx.cmds))):
+        c = ctx.cmds[j]
+        if c[0] == "exec" and c[1] == name and not ctx.impl[j].startswith("bad-"):
+            il, ml = ctx.impl[j], ctx.model[j]
+            if il.startswith("ok rows"):
+                return field(il, "rows"), field(ml, "order") == "exact", field(ml, "det") != "F", None, j
+            return None, False, True, il, j
+        if c[0] == "sqlexec" and c[1] == name and not ctx.impl[j].startswith("bad-"):
+            il, ml = ctx.impl[j], ctx.model[j]
+            if il.startswith("ok rows0"):
+                det = ml.startswith("ok ") and field(ml, "det") == "T"
+                total = ml.startswith("ok ") and field(ml, "total") == "T"
+                return field(il, "rows0"), total, det, None, j
+            return None, False, True, il, j
+    return None, False, False, "not-executed", -1
+
+
+def sem_line_for(ctx: Ctx, k: int, name: str):
+    for j in range(k + 1, min(k + 6, len(ctx.cmds))):
+        c = ctx.cmds[j]
+        if c[0] == "sem" and c[1] == name:
+            return ctx.model[j]
+    return None
+
+
+def has_iteration_join(t, kinds_of) -> bool:
+    """A join node inside an iteration engine: executing it is the documented EngineError
+    ("Joins are not supported by the iteration engine")."""
+    return any(kd == "b:join" and kinds_of.get(node_engine(n)) == "iter" for kd, n in tree_nodes(t, into_skip=True))
+
+
+def _process_checks(prop: str, ctx: Ctx, stats: Stats, cmds, only=None):
+    """Shared by C07 (all relations) and C03 (relations built with preferred-engine options)."""
+    out = []
+    kinds_of = engine_kinds(ctx)
+    for k, c in enumerate(ctx.cmds):
+        if c[0] != "process":
+            continue
+        pname, rname = c[1], c[2]
+        if only is not None and rname not in only:
+            continue
+        src = ctx.meta.get(rname)
+        il, ml = ctx.impl[k], ctx.model[k]
+        if src is None or il == "bad-ref":
+            continue
+        kinds = sorted({kd for kd, _ in tree_nodes(src["tree"], into_skip=True)} - {"leaf", "select"})
+        if ml.startswith("err Unspecified"):
+            stats.note(src["tree_text"], False, "unspecified-self-join")
+            continue
+        if il.startswith("err EngineError") and has_iteration_join(src["tree"], kinds_of):
+            stats.note(src["tree_text"], False, "documented-refusal:iteration-join")
+            continue
+        if il.startswith("err "):
+            stats.note(src["tree_text"], True, "process-error:" + il.split()[1])
+            err = il.split()[1].split(":")[0]
+            out.append(Violation(prop, f"processing-failed:{err}",
+                                 f"{cmds[k]}: {il}; tree {src['tree_text']}"))
+            continue
+        m = ctx.meta_at[k]
+        if m is None:
+            continue
+        hooks = il.split(" || hooks=", 1)[1] if " || hooks=" in il else ""
+        nhooks = hooks.count("<transfer") + hooks.count("<materialize")
+        stats.note(src["tree_text"] + hooks, len(kinds) >= 2 and nhooks > 0, *kinds, f"hooks:{min(nhooks, 3)}")
+        if prop == "C07":
+            if m["cols"] != src["cols"] or m["eng"] != src["eng"]:
+                out.append(Violation("C07", "processed-relation-changed-signature",
+                                     f"{cmds[k]}: {src['cols']}/{src['eng']} became {m['cols']}/{m['eng']}"))
+            inp = re.search(r" \|\| input=(.*) \|\| hooks=", il)
+            if inp:
+                after = inp.group(1)
+                if strip_marks(after) != strip_marks(src["tree_text"]):
+                    out.append(Violation("C07", "input-tree-structure-changed",
+                                         f"{cmds[k]}: before {src['tree_text']} after {after}"))
+                before_x = set(re.findall(r"\(xfer #(\d+)\+", src["tree_text"]))
+                after_x = set(re.findall(r"\(xfer #(\d+)\+", after))
+                if after_x - before_x:
+                    out.append(Violation("C07", "input-transfer-gained-payload", f"{cmds[k]}: {after}"))
+            if "triv=T" in hooks:
+                out.append(Violation("C07", "hook-called-on-trivial-relation", f"{cmds[k]}: {hooks}"))
+        sem = sem_line_for(ctx, k, rname)
+        rows, ordered, det, err, j = exec_rows_after(ctx, k, pname)
+        if err is not None:
+            if err == "not-executed":
+                continue
+            e = err.split()[-1].split(":")[0]
+            kind = f"processed-tree-not-executable:{e}"
+            if j >= 0 and ctx.model[j].startswith("unspecified"):
+                continue
+            if e == "EngineError" and has_iteration_join(m["tree"], kinds_of):
+                continue
+            if ":nested-compound" in err or (err.startswith("err database") and has_nested_compound(m["tree"])):
+                kind += ":nested-compound"
+            out.append(Violation(prop, kind, f"{cmds[k]} then {cmds[j]}: {err}; processed tree {m['tree_text']}"))
+            continue
+        if sem is None or rows is None:
+            continue
+        pdet = field(ml, "det") != "F"
+        if field(sem, "kd") != "T" or not det or not pdet:
+            continue
+        want = field(sem, "rows")
+        same = (rows == want) if ordered else (_ms(rows) == _ms(want))
+        if not same:
+            out.append(Violation(prop, "processed-rows-differ-from-direct-evaluation",
+                                 f"{cmds[k]}: executed {rows}, direct evaluation gives {want}; tree {src['tree_text']}"))
+    return out
+
+
+def oracle_C07(cmds, impl, model, stats: Stats):
+    ctx = Ctx(cmds, impl, model)
+    stats.corr_diffs = getattr(stats, "corr_diffs", []) + sql_correspondence(ctx, stats, cmds)
+    return _process_checks("C07", ctx, stats, cmds)
+
+
+def op_nodes_by_engine(t) -> Counter:
+    c: Counter = Counter()
+    for kd, n in tree_nodes(t):
+        if kd.startswith(("u:", "b:")):
+            c[node_engine(n)] += 1
+    return c
+
+
+def oracle_C03(cmds, impl, model, stats: Stats):
+    ctx = Ctx(cmds, impl, model)
+    stats.corr_diffs = getattr(stats, "corr_diffs", []) + sql_correspondence(ctx, stats, cmds)
+    out = []
+    pref_rels = set()
+    last_plain: dict[tuple, int] = {}
+    for k, c in enumerate(ctx.cmds):
+        if c[0] == "apply":
+            key = (c[2], proto.sx(c[3]))
+            opts = c[4]
+            pref = opts[1]
+            if pref == "-" and opts[2:] == ["T", "F", "F"]:
+                last_plain[key] = k
+                continue
+            if pref == "-":
+                continue
+            pref_rels.add(c[1])
+            il = impl[k]
+            tgt = ctx.meta.get(c[2])
+            bt, tr, req = (x == "T" for x in opts[2:])
+            stats.note(cmds[k], tgt is not None and tgt["eng"] != engine_name(ctx, pref),
+                       f"op:{c[3][0]}", f"bt={opts[2]} tr={opts[3]} req={opts[4]}",
+                       "accepted" if il.startswith("ok ") else "rejected:" + il.split()[-1])
+            kp = last_plain.get(key)
+            plain = impl[kp] if kp is not None else None
+            if il.startswith("err ColumnError") and plain is not None and plain.startswith("ok "):
+                out.append(Violation("C03", "valid-operation-rejected-by-backtracking",
+                                     f"{cmds[k]} raised ColumnError but {cmds[kp]} succeeds"))
+                continue
+            m = ctx.meta_at[k]
+            if m is None:
+                continue
+            if plain is not None and plain.startswith("ok "):
+                pm = ctx.meta_at[kp]
+                if pm is not None and pm["cols"] != m["cols"]:
+                    out.append(Violation("C03", "preferred-engine-result-has-different-columns",
+                                         f"{cmds[k]}: {m['cols']} vs plain {pm['cols']}"))
+            if tr and m["eng"] != engine_name(ctx, pref) and tgt is not None and m["how"] != "same":
+                # documented: with backtrack=True the transfer is added only if back-tracking fails;
+                # then the operation itself must have been inserted inside the preferred engine
+                before = op_nodes_by_engine(tgt["tree"])
+                after = op_nodes_by_engine(m["tree"])
+                pe = engine_name(ctx, pref)
+                moved_inside = bt and all(after.get(e, 0) <= before.get(e, 0) for e in set(before) | set(after) if e != pe)
+                if not moved_inside:
+                    out.append(Violation("C03", "transfer-requested-but-operation-not-in-preferred-engine",
+                                         f"{cmds[k]}: result engine {m['eng']}; {m['tree_text']}"))
+            if req and not tr and tgt is not None:
+                before = op_nodes_by_engine(tgt["tree"])
+                after = op_nodes_by_engine(m["tree"])
+                pe = engine_name(ctx, pref)
+                for e in set(before) | set(after):
+                    if e != pe and after.get(e, 0) > before.get(e, 0):
+                        out.append(Violation("C03", "required-preferred-engine-but-operation-added-elsewhere",
+                                             f"{cmds[k]}: engine {e} has {after[e]} operation nodes (was {before.get(e, 0)})"))
+        elif c[0] == "join":
+            pref_rels.add(c[1])
+            stats.note(cmds[k], True, "op:join", f"bt={c[5]} tr={c[6]}",
+                       "accepted" if impl[k].startswith("ok ") else "rejected:" + impl[k].split()[-1])
+    out.extend(_process_checks("C03", ctx, stats, cmds, only=pref_rels))
+    return out
+
+
+def engine_name(ctx: Ctx, declared: str) -> str:
+    """Protocol engine name (as declared) -> printed index name."""
+    i = 0
+    for c in ctx.cmds:
+        if c[0] == "engine":
+            if c[1] == declared:
+                return f"e{i}"
+            i += 1
+    return declared
+
+
+# ------------------------------------------------------------------------------ C14 / C15
+def op_required(opnode) -> set[str]:
+    h = opnode[0]
+    if h == "calc":
+        from gen import G
+        return G.expr_cols(opnode[2])
+    if h == "proj":
+        return set(filter(None, opnode[1].strip("[]").split(",")))
+    if h == "sel":
+        from gen import G
+        return G.pred_cols(opnode[1])
+    if h == "sort":
+        from gen import G
+        out: set[str] = set()
+        for t in opnode[1:]:
+            out |= G.expr_cols(t[1])
+        return out
+    return set()
+
+
+def sups_in(x, acc: set[str]):
+    if isinstance(x, list):
+        if x and x[0] in ("fn", "pfn") and len(x) > 2 and x[2] in ("iter", "sql"):
+            acc.add(x[2])
+        for y in x:
+            sups_in(y, acc)
+
+
+def oracle_C14(cmds, impl, model, stats: Stats):
+    ctx = Ctx(cmds, impl, model)
+    stats.corr_diffs = getattr(stats, "corr_diffs", []) + sql_correspondence(ctx, stats, cmds)
+    out = []
+    kinds_of = engine_kinds(ctx)
+    lcols = leaf_cols(ctx)
+    keycols = {n for n, k in parse_cmd(cmds[0])[1] if k == "k"} if cmds and cmds[0].startswith("(tags") else set()
+    for k, c in enumerate(ctx.cmds):
+        m = ctx.meta_at[k]
+        if m is None:
+            # rejected calls must be rejected with EngineError / ColumnError (or the row-order error)
+            continue
+        nodes = list(tree_nodes(m["tree"], into_skip=True))
+        stats.note(m["tree_text"], len(nodes) > 3, *sorted({kd for kd, _ in nodes}))
+        for kd, n in nodes:
+            if kd in ("u:identity", "u:pjoin", "b:ignore"):
+                out.append(Violation("C14", "placeholder-operation-in-tree", f"{cmds[k]}: {m['tree_text']}"))
+            if kd.startswith("b:"):
+                if node_engine(n[3]) != node_engine(n[4]):
+                    out.append(Violation("C14", "binary-operands-in-different-engines", f"{cmds[k]}: {m['tree_text']}"))
+            if kd == "xfer" and node_engine(n[3]) == n[2]:
+                out.append(Violation("C14", "transfer-connects-engine-to-itself", f"{cmds[k]}: {m['tree_text']}"))
+            if kd == "b:join":
+                mn, mx = n[1][2], n[1][3]
+                if mn != mx:
+                    out.append(Violation("C14", "join-common-columns-unresolved", f"{cmds[k]}: {m['tree_text']}"))
+                common = set(filter(None, mn.strip("[]").split(",")))
+                if not (common <= node_cols(n[3], lcols) and common <= node_cols(n[4], lcols) and common <= keycols):
+                    out.append(Violation("C14", "join-common-columns-not-shared-key-columns",
+                                         f"{cmds[k]}: {mn}; {m['tree_text']}"))
+            if kd.startswith("u:"):
+                need = op_required(n[1])
+                have = node_cols(n[3], lcols)
+                if not need <= have:
+                    out.append(Violation("C14", "operation-requires-missing-columns",
+                                         f"{cmds[k]}: {proto.sx(n[1])} needs {sorted(need - have)}; {m['tree_text']}"))
+            if kd.startswith(("u:", "b:")):
+                acc: set[str] = set()
+                sups_in(n[1], acc)
+                ek = kinds_of.get(node_engine(n), "?")
+                if acc and not acc <= {ek}:
+                    out.append(Violation("C14", "expression-not-supported-by-node-engine",
+                                         f"{cmds[k]}: node engine {ek}, expression restricted to {sorted(acc)}"))
+        # documented no-ops return the relation itself
+        if c[0] == "apply":
+            tgt = ctx.meta.get(c[2])
+            op = c[3]
+            if tgt is not None:
+                noop = (op[0] == "proj" and set(op[1:]) == tgt["colset"]) or (op[0] == "sort" and len(op) == 1) or \
+                       (op[0] == "slice" and op[1] in ("0", "-") and op[2] == "-" and op[3] in ("-", "1"))
+                if noop and m["how"] != "same":
+                    out.append(Violation("C14", f"documented-noop-returned-new-relation:{op[0]}",
+                                         f"{cmds[k]}: {m['tree_text']}"))
+        if c[0] == "transfer":
+            tgt = ctx.meta.get(c[2])
+            if tgt is not None and tgt["eng"] == engine_name(ctx, c[3]) and m["how"] != "same":
+                ek = kinds_of.get(tgt["eng"], "?")
+                out.append(Violation("C14", f"documented-noop-returned-new-relation:transfer-to-own-engine:{ek}",
+                                     f"{cmds[k]}: {m['tree_text']}"))
+    return out
+
+
+def locked_nodes(t):
+    """(kind, serial-or-name, structural text of the subtree) for leaves and materializations."""
+    out = []
+    for kd, n in tree_nodes(t, into_skip=True):
+        if kd == "leaf":
+            out.append(("leaf", n[1], proto.sx(n)))
+        elif kd == "mat":
+            out.append(("mat", n[2], re.sub(r"^#(\d+)\+?$", r"\1", n[1]), strip_marks(proto.sx(n))))
+    return out
+
+
+def oracle_C15(cmds, impl, model, stats: Stats):
+    ctx = Ctx(cmds, impl, model)
+    stats.corr_diffs = getattr(stats, "corr_diffs", []) + sql_correspondence(ctx, stats, cmds)
+    out = []
+    for k, c in enumerate(ctx.cmds):
+        m = ctx.meta_at[k]
+        if m is None or c[0] not in ("apply", "join", "chain", "mat", "transfer"):
+            continue
+        operands = [c[2]] if c[0] in ("apply", "mat", "transfer") else [c[2], c[3]]
+        inputs = [ctx.meta[o] for o in operands if o in ctx.meta]
+        res_mats = {x[1]: x for x in locked_nodes(m["tree"]) if x[0] == "mat"}
+        nlocked = 0
+        for im in inputs:
+            for x in locked_nodes(im["tree"]):
+                if x[0] != "mat":
+                    continue
+                nlocked += 1
+                y = res_mats.get(x[1])
+                if y is None:
+                    continue
+                if y[2] != x[2]:
+                    out.append(Violation("C15", "locked-node-replaced-by-a-copy",
+                                         f"{cmds[k]}: materialization {x[1]} was object #{x[2]}, is #{y[2]} in the result"))
+                elif y[3] != x[3]:
+                    out.append(Violation("C15", "operation-inserted-upstream-of-locked-node",
+                                         f"{cmds[k]}: {x[3]} became {y[3]}"))
+        stats.note(cmds[k] + m["tree_text"], nlocked > 0, c[0], f"locked-inputs:{min(nlocked, 3)}")
+        if c[0] == "mat" and inputs:
+            t = inputs[0]["tree"]
+            # skip Select wrappers
+            while t[0].startswith("select"):
+                t = t[-1]
+            before = sum(1 for kd, _ in tree_nodes(inputs[0]["tree"]) if kd == "mat")
+            after = sum(1 for kd, _ in tree_nodes(m["tree"]) if kd == "mat")
+            if t[0] in ("leaf", "mat") and after > before:
+                out.append(Violation("C15", "materializing-a-locked-relation-added-a-materialization",
+                                     f"{cmds[k]}: {m['tree_text']}"))
+        if c[0] == "transfer" and m["eng"] != engine_name(ctx, c[3]):
+            out.append(Violation("C15", "transfer-result-not-in-requested-engine", f"{cmds[k]}: {m['eng']}"))
+    # content of every processed relation is checked against direct evaluation
+    out.extend(v for v in _process_checks("C15", ctx, stats, cmds))
+    return out
+
+
+# ------------------------------------------------------------------------------ C10
+def oracle_C10(cmds, impl, model, stats: Stats):
+    ctx = Ctx(cmds, impl, model)
+    stats.corr_diffs = getattr(stats, "corr_diffs", []) + sql_correspondence(ctx, stats, cmds)
+    out = []
+    paid: set[str] = set()           # serials of mat/xfer markers seen holding a payload
+    last: dict[str, list] = {}       # latest printed tree of every pool relation
+    last_text: dict[str, str] = {}
+    for k, c in enumerate(ctx.cmds):
+        il = impl[k]
+        # payloads never disappear: once `#k+` was printed, `#k` is never printed without `+` again
+        for ser, mark in re.findall(r"\((?:mat|xfer) #(\d+)(\+?)", il):
+            if mark == "+":
+                paid.add(ser)
+            elif ser in paid:
+                out.append(Violation("C10", "payload-cleared-or-replaced",
+                                     f"{cmds[k]}: marker #{ser} lost its payload: {il[:300]}"))
+        if c[0] in BUILD_CMDS and ctx.meta_at[k] is not None:
+            last[c[1]] = ctx.meta_at[k]["tree"]
+            last_text[c[1]] = ctx.meta_at[k]["tree_text"]
+        if c[0] == "show" and il.startswith("ok "):
+            txt = il[3:].split(" | ")[0]
+            last[c[1]] = proto.parse_line(txt)[0]
+            last_text[c[1]] = txt
+        if c[0] == "attach":
+            root = last.get(c[1])
+            if root is None:
+                continue
+            is_marker = root[0] in ("mat", "xfer") or root[0].startswith("select")
+            has = root[0] == "select+" or (root[0] in ("mat", "xfer") and
+                                           (root[1].endswith("+") or root[1].strip("#+") in paid))
+            expect_ok = is_marker and not has
+            if root[0].startswith("select"):
+                # several pool names may denote one Select object; its payload state is tracked by the
+                # model (allocation ids) and compared through the correspondence, not re-derived here
+                stats.note(cmds[k] + last_text[c[1]], True, "attach:select-marker")
+                if not (il.startswith("ok attached") or il.startswith("err TypeError")):
+                    out.append(Violation("C10", "attach-failed-with-unexpected-error", f"{cmds[k]}: {il}"))
+                continue
+            stats.note(cmds[k] + last_text[c[1]], is_marker, "attach:" + ("marker" if is_marker else "non-marker"),
+                       "has-payload" if has else "empty")
+            if expect_ok and not il.startswith("ok"):
+                out.append(Violation("C10", "attach-to-empty-marker-rejected", f"{cmds[k]}: {il}; {last_text[c[1]]}"))
+            if not expect_ok and not il.startswith("err TypeError"):
+                out.append(Violation("C10", "attach-not-rejected-with-TypeError", f"{cmds[k]}: {il}; {last_text[c[1]]}"))
+        if c[0] == "exec" and il.startswith("ok rows"):
+            tree = last.get(c[1])
+            if tree is None:
+                continue
+            # leaves reachable without crossing a marker that already holds a payload
+            allowed: Counter = Counter()
+
+            def go(x):
+                h = x[0]
+                if h == "leaf":
+                    allowed[x[1]] += 1
+                elif h == "u":
+                    go(x[3])
+                elif h == "b":
+                    go(x[3])
+                    go(x[4])
+                elif h in ("mat", "xfer"):
+                    if x[1].strip("#+") in paid:
+                        return
+                    go(x[3])
+                elif h == "select+":
+                    return
+                elif h.startswith("select"):
+                    go(x[-1])
+
+            go(tree)
+            t = field(il, "pulls_exec").strip("[]")
+            pe = Counter(t.split(",")) if t else Counter()
+            kinds = {kd for kd, _ in tree_nodes(tree)}
+            cached = any(kd == "mat" and n[1].strip("#+") in paid for kd, n in tree_nodes(tree))
+            stats.note(last_text[c[1]] + il, "mat" in kinds, "exec", "cached" if cached else "cold")
+            for leaf, cnt in pe.items():
+                if cnt > allowed.get(leaf, 0):
+                    out.append(Violation("C10", "materialized-upstream-evaluated-again",
+                                         f"{cmds[k]}: {leaf} pulled {cnt} times at execute, {allowed.get(leaf, 0)} "
+                                         f"uncached occurrences; {last_text[c[1]]}"))
+            sem = sem_line_for(ctx, k, c[1])
+            if sem is not None and field(sem, "kd") == "T" and field(model[k], "det") != "F":
+                want, got = field(sem, "rows"), field(il, "rows")
+                ok = (got == want) if field(model[k], "order") == "exact" else (_ms(got) == _ms(want))
+                if not ok:
+                    out.append(Violation("C10", "cached-rows-differ-from-direct-evaluation",
+                                         f"{cmds[k]}: {got} vs {want}; {last_text[c[1]]}"))
+    return out
+
+
+# ------------------------------------------------------------------------------ C16
+def oracle_C16(cmds, impl, model, stats: Stats):
+    ctx = Ctx(cmds, impl, model)
+    out = []
+    for k, c in enumerate(ctx.cmds):
+        if c[0] != "diag":
+            continue
+        il = impl[k]
+        m = ctx.meta.get(c[1])
+        sem = sem_line_for(ctx, k, c[1])
+        if m is None or sem is None or not il.startswith("ok doomed"):
+            continue
+        doomed, msgs = field(il, "doomed"), int(field(il, "messages"))
+        rows = field(sem, "tree")       # the content of the relation that was diagnosed
+        empty = rows == "[]"
+        kinds = sorted({kd for kd, _ in tree_nodes(m["tree"])} - {"select"})
+        stats.note(cmds[k] + m["tree_text"] + rows, len(kinds) >= 2, "mode:" + c[2],
+                   "doomed" if doomed == "T" else "not-doomed", "empty" if empty else "nonempty")
+        if doomed == "T" and not empty:
+            out.append(Violation("C16", "nonempty-relation-reported-doomed",
+                                 f"{cmds[k]}: rows {rows}; tree {m['tree_text']}"))
+        if c[2] == "truthful" and doomed == "F" and empty:
+            out.append(Violation("C16", "empty-relation-not-reported-doomed-with-truthful-executor",
+                                 f"{cmds[k]}: tree {m['tree_text']}"))
+        if doomed == "T" and msgs < 1:
+            out.append(Violation("C16", "doomed-verdict-without-message", f"{cmds[k]}: tree {m['tree_text']}"))
+    return out
+
+
+# ------------------------------------------------------------------------------ C20
+EXPECTED_ERRORS = {
+    "missing-column": {"ColumnError"},
+    "tag-exists": {"ColumnError"},
+    "chain-columns": {"ColumnError"},
+    "engine-mismatch": {"EngineError"},
+    "unsupported-expression": {"EngineError"},
+    "slice-negative": {"ValueError"},
+    "slice-reversed": {"ValueError"},
+    "slice-step": {"TypeError"},
+}
+
+
+def op_required_sx(op) -> set[str]:
+    """Required columns of an operation request in protocol syntax."""
+    from gen import op_required_cols
+    return op_required_cols(op)
+
+
+def oracle_C20(cmds, impl, model, stats: Stats):
+    ctx = Ctx(cmds, impl, model)
+    out = []
+    shows: dict[str, str] = {}
+    for k, c in enumerate(ctx.cmds):
+        if c[0] in BUILD_CMDS and ctx.meta_at[k] is not None:
+            shows[c[1]] = strip_marks(ctx.meta_at[k]["tree_text"]) + " | " + ctx.meta_at[k]["cols"]
+        if c[0] == "illformed":
+            # (illformed KIND) announces that the NEXT command is the injected ill-formed request
+            kind = c[1]
+            il = impl[k + 1]
+            nxt = ctx.cmds[k + 1]
+            # confirm on the REAL relations that the request is ill-formed in the announced way
+            # (the generator tracks engines/columns only approximately)
+            ops = [ctx.meta.get(x) for x in ([nxt[2]] if nxt[0] == "apply" else [nxt[2], nxt[3]])]
+            if any(o is None for o in ops):
+                continue
+            really = True
+            if kind == "engine-mismatch":
+                really = ops[0]["eng"] != ops[1]["eng"]
+            elif kind == "chain-columns":
+                really = ops[0]["eng"] == ops[1]["eng"] and ops[0]["colset"] != ops[1]["colset"]
+            elif kind == "missing-column":
+                if nxt[0] == "apply":
+                    need = op_required_sx(nxt[3])
+                    really = not need <= ops[0]["colset"]
+                else:
+                    from gen import G
+                    really = not G.pred_cols(nxt[4]) <= (ops[0]["colset"] | ops[1]["colset"])
+            elif kind == "tag-exists":
+                really = nxt[3][1] in ops[0]["colset"]
+            elif kind == "unsupported-expression":
+                acc: set[str] = set()
+                sups_in(nxt[3], acc)
+                ek = engine_kinds(ctx).get(ops[0]["eng"], "?")
+                really = bool(acc) and ek not in acc
+            if not really:
+                stats.note(cmds[k + 1], False, "not-actually-ill-formed:" + kind)
+                continue
+            stats.note(cmds[k + 1], True, "kind:" + kind, "opts:" + (proto.sx(ctx.cmds[k + 1][-1]) if ctx.cmds[k + 1][0] == "apply" else ctx.cmds[k + 1][0]))
+            if il.startswith("ok "):
+                out.append(Violation("C20", f"ill-formed-request-accepted:{kind}", f"{cmds[k + 1]}: {il[:200]}"))
+            elif il.startswith("err "):
+                err = il.split()[1]
+                if err not in EXPECTED_ERRORS[kind]:
+                    out.append(Violation("C20", f"ill-formed-request-wrong-error:{kind}:{err}",
+                                         f"{cmds[k + 1]}: raised {err}, documented {sorted(EXPECTED_ERRORS[kind])}"))
+        if c[0] == "show" and impl[k].startswith("ok "):
+            txt = impl[k][3:]
+            tree = txt.split(" | ")[0]
+            cols = re.search(r"cols=(\S+)", txt).group(1)
+            now = strip_marks(tree) + " | " + cols
+            if c[1] in shows and shows[c[1]] != now:
+                out.append(Violation("C20", "rejected-call-changed-existing-relation",
+                                     f"{c[1]}: was {shows[c[1]]}, now {now}"))
+    return out
+
+
+ORACLES.update({"C03": oracle_C03, "C07": oracle_C07, "C10": oracle_C10, "C14": oracle_C14, "C15": oracle_C15,
+                "C16": oracle_C16, "C20": oracle_C20})
